@@ -5,7 +5,7 @@ CONSTANTS
   Shapes <- ShapesQ
   Layouts = {"contig"}
   MaxOps = 2
-  MaxStep = 3
+  MaxStep = 2
   Fills = {0}
   ValKinds = {"fresh"}
   Emit = FALSE
